@@ -89,7 +89,8 @@ def gen_model(seed: int) -> Dict[str, Any]:
         if m == s or [m, s] in merges:
             continue
         merges.append([m, s])
-    return {"blocks": blocks, "patches": patches, "merges": merges}
+    delete = rs.randrange(100) if rs.chance(0.25) else None
+    return {"blocks": blocks, "patches": patches, "merges": merges, "delete": delete}
 
 
 def make_program(model: Dict[str, Any], cfg_seed: int, identity: bool = False) -> Dict[str, Any]:
@@ -108,6 +109,11 @@ def make_program(model: Dict[str, Any], cfg_seed: int, identity: bool = False) -
     merge_first = identity or cs.chance(0.5)
     mops = [{"op": "merge", "master": m, "slave": s} for m, s in merges]
     aops = [{"op": "add", "target": n} for n in order]
+    # sometimes an operation is excluded again (never the last one)
+    dops = []
+    if len(names) > 2 and model.get("delete") is not None:
+        dops = [{"op": "delete", "target": names[model["delete"] % len(names)]}]
+    aops = aops + dops
     late = (not identity) and cs.chance(0.3)
     if late and mops:
         # the mesh was assembled once before some of the pairs were declared; it is cleared and
@@ -129,6 +135,7 @@ SIDE_OF_CORNER: Dict[int, List[str]] = {i: [s for s in hexref.SIDES if i in hexr
 def reference_partition(program: Dict[str, Any]) -> Tuple[List[str], List[List[Any]]]:
     """per added block (add order), per corner: the key (cluster id, slave patches at that corner)"""
     hexes, patches, merges, added = {}, {}, [], []
+    deleted = set()
     for op in program["ops"]:
         if op["op"] == "hex":
             hexes[op["name"]] = op
@@ -140,6 +147,9 @@ def reference_partition(program: Dict[str, Any]) -> Tuple[List[str], List[List[A
             merges.append((op["master"], op["slave"]))
         elif op["op"] == "add":
             added.append(op["target"])
+        elif op["op"] == "delete":
+            deleted.add(op["target"])
+    added = [n for n in added if n not in deleted]
     slaves = {s for (_, s) in merges}
     allpos = []
     for n in added:
@@ -253,6 +263,9 @@ def oracle(program: Dict[str, Any], run: Dict[str, Any]) -> Tuple[List[Dict[str,
         merged = any(k[1] for row in keys for k in row)
         bad("wrong-connectivity", where or "partitions differ", )
         V[-1]["key"] = "wrong-connectivity:" + ("merged" if merged else "plain")
+    declared = sorted((op["master"], op["slave"]) for op in program["ops"] if op["op"] == "merge")
+    if sorted(parsed.merge_pairs) != declared:
+        bad("merge-pairs-lost", f"mergePatchPairs written {parsed.merge_pairs}, declared {declared}")
     # every corner's vertex is at the corner's point
     hexes = {op["name"]: op for op in program["ops"] if op["op"] == "hex"}
     for b, nme in enumerate(added):
@@ -286,7 +299,8 @@ def by_block_signature(program, sig) -> Optional[Tuple]:
     """partition expressed per block name (so that different add orders can be compared)"""
     if sig is None:
         return None
-    added = [op["target"] for op in program["ops"] if op["op"] == "add"]
+    gone = {op["target"] for op in program["ops"] if op["op"] == "delete"}
+    added = [op["target"] for op in program["ops"] if op["op"] == "add" and op["target"] not in gone]
     rows = {n: sig[8 * i: 8 * i + 8] for i, n in enumerate(added)}
     ordered = [rows[n] for n in sorted(rows)]
     return partition_signature(ordered)
